@@ -28,6 +28,7 @@ import (
 	"encoding/json"
 	"flag"
 	"fmt"
+	"math/big"
 	"os"
 	"runtime"
 	"runtime/debug"
@@ -36,6 +37,7 @@ import (
 	"time"
 
 	"github.com/hashicorp/go-hclog"
+	"github.com/hashicorp/go-raftchunking"
 	"github.com/hashicorp/raft"
 	"google.golang.org/grpc"
 
@@ -76,6 +78,53 @@ type Step struct {
 	Rows  int      `json:"rows"`
 	Full  string   `json:"full,omitempty"` // -full: the dump text
 	MRes  *Res     `json:"mres,omitempty"` // result in the model's vocabulary (entries with Model)
+	MVip  *MVip    `json:"mvip,omitempty"` // manual-VIP commands: the rows before/after (coq/FSM/Model.v)
+}
+
+// service-virtual-ips rows in the vocabulary of coq/FSM/Model.v
+type VipRow struct {
+	Key    string   `json:"key"` // service name; "peer:<peer>/<name>" for imported services
+	IP     string   `json:"ip"`  // the raw allocated IP as a decimal number
+	Manual []string `json:"manual"`
+	C      uint64   `json:"c"`
+	M      uint64   `json:"m"`
+}
+type VipView struct {
+	Rows  []VipRow `json:"rows"`
+	Index uint64   `json:"index"` // index table row "service-virtual-ips" (0 = absent)
+}
+type MVip struct {
+	Before     VipView  `json:"before"`
+	Svc        string   `json:"svc"`
+	Ips        []string `json:"ips"`
+	After      VipView  `json:"after"`
+	Found      bool     `json:"found"`
+	Unassigned []string `json:"unassigned"` // raw order
+}
+
+func vipKey(p structs.PeeredServiceName) string {
+	if p.Peer != "" {
+		return "peer:" + p.Peer + "/" + p.ServiceName.Name
+	}
+	return p.ServiceName.Name
+}
+
+func (r *replica) vipView() VipView {
+	v := VipView{Rows: []VipRow{}}
+	r.store().WalkAllTables(func(table string, item interface{}) bool {
+		switch x := item.(type) {
+		case state.ServiceVirtualIP:
+			m := append([]string{}, x.ManualIPs...)
+			v.Rows = append(v.Rows, VipRow{Key: vipKey(x.Service), IP: new(big.Int).SetBytes(x.IP).String(), Manual: m, C: x.CreateIndex, M: x.ModifyIndex})
+		case *state.IndexEntry:
+			if x.Key == "service-virtual-ips" {
+				v.Index = x.Value
+			}
+		}
+		return true
+	})
+	sort.Slice(v.Rows, func(i, j int) bool { return v.Rows[i].Key < v.Rows[j].Key })
+	return v
 }
 
 type Obs struct {
@@ -174,13 +223,23 @@ func (r *replica) applyEntry(e *Entry) (out interface{}, panicked string) {
 
 // canonical form of the results that are sets returned as lists in Go-map order
 func canonSetResult(out interface{}) (string, bool) {
+	if cs, ok := out.(raftchunking.ChunkingSuccess); ok {
+		if _, ok := canonSetResult(cs.Response); ok {
+			return canonResult(raftchunking.ChunkingSuccess{Response: sortedVIPResponse(cs.Response.(structs.AssignServiceManualVIPsResponse))}), true
+		}
+		return "", false
+	}
 	if v, ok := out.(structs.AssignServiceManualVIPsResponse); ok && len(v.UnassignedFrom) > 1 {
-		c := v
-		c.UnassignedFrom = append([]structs.PeeredServiceName(nil), v.UnassignedFrom...)
-		sort.Slice(c.UnassignedFrom, func(i, j int) bool { return canon(c.UnassignedFrom[i]) < canon(c.UnassignedFrom[j]) })
-		return canonResult(c), true
+		return canonResult(sortedVIPResponse(v)), true
 	}
 	return "", false
+}
+
+func sortedVIPResponse(v structs.AssignServiceManualVIPsResponse) structs.AssignServiceManualVIPsResponse {
+	c := v
+	c.UnassignedFrom = append([]structs.PeeredServiceName(nil), v.UnassignedFrom...)
+	sort.Slice(c.UnassignedFrom, func(i, j int) bool { return canon(c.UnassignedFrom[i]) < canon(c.UnassignedFrom[j]) })
+	return c
 }
 
 var _ = stringslice.Contains
@@ -197,6 +256,7 @@ func runHistory(h *History, full bool, plant bool) Obs {
 	}
 	obs := Obs{ID: h.ID, Steps: []Step{}}
 	prev := r.dump()
+	prevVip := r.vipView()
 	allModel := len(h.Entries) > 0
 	for i := range h.Entries {
 		e := &h.Entries[i]
@@ -220,6 +280,22 @@ func runHistory(h *History, full bool, plant bool) Obs {
 			st.MRes = &m
 		} else {
 			allModel = false
+		}
+		if e.Kind == "manual-vips" {
+			curVip := r.vipView()
+			var req state.ServiceVirtualIP
+			data, _ := hex.DecodeString(e.Data)
+			if resp, ok := out.(structs.AssignServiceManualVIPsResponse); ok && structs.Decode(data[1:], &req) == nil {
+				mv := &MVip{Before: prevVip, Svc: vipKey(req.Service), Ips: append([]string{}, req.ManualIPs...), After: curVip,
+					Found: resp.Found, Unassigned: []string{}}
+				for _, u := range resp.UnassignedFrom {
+					mv.Unassigned = append(mv.Unassigned, vipKey(u))
+				}
+				st.MVip = mv
+			}
+			prevVip = curVip
+		} else if e.Type != int(structs.KVSRequestType) {
+			prevVip = r.vipView()
 		}
 		obs.Steps = append(obs.Steps, st)
 		prev = cur
@@ -283,13 +359,12 @@ func main() {
 		w = bufio.NewWriterSize(f, 1<<20)
 	}
 	defer w.Flush()
+	enc := json.NewEncoder(w)
+	enc.SetEscapeHTML(false)
 	emit := func(v interface{}) {
-		j, err := json.Marshal(v)
-		if err != nil {
+		if err := enc.Encode(v); err != nil {
 			panic(err)
 		}
-		w.Write(j)
-		w.WriteByte('\n')
 	}
 
 	switch {
